@@ -554,9 +554,27 @@ fn strings(tier: Tier) -> Vec<Vec<u8>> {
             }
         }
     }
-    let mut v: Vec<Vec<u8>> = set.into_iter().collect();
+    let mut v: Vec<Vec<u8>> = set.into_iter().filter(|s| !has_webtransport_signal(s)).collect();
     v.sort();
     v
+}
+
+/// A frame header of type 0x41 with a complete second varint is not a frame at all for h3: it is the WebTransport
+/// bidirectional-stream signal (the second varint is a session id and the caller takes the stream over). That is
+/// outside this property's alphabet (C19 covers it); the dense enumeration of short strings must not contain it.
+fn has_webtransport_signal(s: &[u8]) -> bool {
+    let mut at = 0usize;
+    loop {
+        let refimpl::varint::Decoded::Ok(ty, n) = refimpl::varint::decode(&s[at..]) else { return false };
+        let refimpl::varint::Decoded::Ok(len, m) = refimpl::varint::decode(&s[at + n..]) else { return false };
+        if ty == 0x41 {
+            return true;
+        }
+        at = at + n + m + len.min(s.len() as u64) as usize;
+        if at >= s.len() {
+            return false;
+        }
+    }
 }
 
 /// All chunkings for n <= dense_max bytes; otherwise every set of at most `max_cuts` cut positions.
